@@ -101,6 +101,18 @@ let rec cexpr_of x = match lst x with
    bodies with lists of any length, enumeration for list-free bodies); types it cannot decide (lists AND
    FetchAfter chains / shared node types) fall back to the enumeration with at most 2 repetitions per list *)
 let sym_universal = ref 0 and sym_bounded = ref 0
+
+(* number of child sequences Types.child_seqs would enumerate (capped) *)
+let rec nseqs rep e =
+  let cap x = if x > 1000000 then 1000000 else x in
+  match e with
+  | T.CEmpty | T.CNode _ -> 1
+  | T.CSeq (a, b) -> cap (nseqs rep a * nseqs rep b)
+  | T.CChoice (a, b) -> cap (nseqs rep a + nseqs rep b)
+  | T.COpt a -> cap (1 + nseqs rep a)
+  | T.CList (a, _) -> let x = nseqs rep a in
+      let rec pow k acc tot = if k = 0 then tot else let acc = cap (acc * x) in pow (k - 1) acc (cap (tot + acc)) in
+      pow rep 1 1
 let () = if Sys.getenv_opt "C21_SYMSTAT" <> None then
   at_exit (fun () -> Printf.eprintf "c21.types: %d types validated universally, %d by bounded enumeration only\n" !sym_universal !sym_bounded)
 
@@ -113,7 +125,12 @@ let () = Reg.register "c21.types" (fun inp _out ->
       if bs = [] then true   (* a reported token: no accessors *)
       else begin
         let mc = SL.map mcat cats and mf = SL.map mfield fs in
-        if TypesSym.check_type_any mc mf (n_of_int inj) (nat_of_int 2) bs then (if count then incr sym_universal; true)
+        (* the enumeration is only attempted when the number of child sequences is moderate; a body that the
+           symbolic validator rejects and that is too large to enumerate counts as not validated *)
+        let small = SL.fold_left (fun acc b -> acc + nseqs 2 b) 0 bs <= 20000 in
+        if not small then
+          (if SL.for_all (fun b -> TypesSym.check_sym mc mf (n_of_int inj) b) bs then (if count then incr sym_universal; true) else false)
+        else if TypesSym.check_type_any mc mf (n_of_int inj) (nat_of_int 2) bs then (if count then incr sym_universal; true)
         else if T.check_type mc mf (n_of_int inj) (nat_of_int 2) bs then (if count then incr sym_bounded; true)
         else false
       end) rts bodies in
